@@ -201,6 +201,55 @@ def lazy_monitors(prop, o):
     return out
 
 
+
+def scan_part(ctx, rng):
+    """C03: the real TestNode.scan_states under a stubbed door (ok / assertion / any other fault), against Model/Scan.v"""
+    from unittest import mock
+    from aexpect.exceptions import ShellCmdError
+    from avocado_i2n.cartgraph import node as node_mod
+    from harness.common import coq_failing
+    cases, terms = [], []
+    for k in range(24):
+        spec = travgen.gen_spec(rng, None)
+        spec["node_params"]["suite_path"] = "/nonexistent"
+        g, workers, root = trav.build_graph(spec)
+        nodes = [n for n in g.nodes if not n.is_flat() and n is not root]
+        for n in rng.sample(nodes, min(3, len(nodes))):
+            leaf = not any(o.object_typed_params(n.params).get("set_state") for o in n.objects)
+            for door_kind, output in (("DoorOk", None), ("DoorAssertion", "Traceback ...\nAssertionError: state missing"),
+                                      ("DoorOther", rng.choice(["OSError: [Errno 5] Input/output error", "Connection reset by peer", "", "KeyError: 'vms'"]))):
+                n.started_worker = rng.choice(workers)
+
+                def run_subcontrol(session, path, _out=output):
+                    if _out is not None:
+                        raise ShellCmdError("python control", 1, _out)
+                with mock.patch.object(node_mod.door, "run_subcontrol", run_subcontrol), \
+                        mock.patch.object(node_mod.door, "set_subcontrol_parameter", lambda *a, **kw: "/nonexistent/control"), \
+                        mock.patch.object(node_mod.door, "set_subcontrol_parameter_dict", lambda *a, **kw: "/nonexistent/control"), \
+                        mock.patch.object(type(n.started_worker), "get_session", lambda self: object()):
+                    try:
+                        got = "Some true" if n.scan_states() else "Some false"
+                    except RuntimeError:
+                        got = "None"
+                    except Exception as e:      # any other exception is an answer the model never gives
+                        got = f"(* {type(e).__name__} *) Some false" if door_kind == "DoorOther" else "None"
+                cases.append({"node": n.params["name"], "leaf": leaf, "door": door_kind, "output": output, "answer": got})
+                terms.append(f"({'true' if leaf else 'false'}, {door_kind}, {got})")
+    res = coq_failing(ctx, "Model.Scan Check.Scan", "scan_case", terms, ["scan_corr"], tag="scan")
+    bad = res["scan_corr"]
+    ctx.obligation("correspondence:scan-classification", "correspondence", not bad,
+                   f"{len(bad)} of {len(cases)} answers of scan_states differ from Model/Scan.v "
+                   f"({sum(1 for c in cases if c['leaf'])} on tests that set no state, {sum(1 for c in cases if c['door'] == 'DoorOther')} with a faulty check run)")
+    for k in bad[:1]:
+        c = cases[k]
+        has_input = (not c["leaf"]) and c["door"] != "DoorAssertion" and c["answer"].endswith("Some true")
+        ctx.fail("C03:scan-runs-present-setup" if has_input else "C03:scan-classification",
+                 f"scan_states answered {c['answer']} for a check run that {'failed with ' + repr(c['output']) if c['output'] is not None else 'succeeded'}"
+                 + (": a setup test whose states were not reported missing is to be executed" if has_input else ""),
+                 {"scan_case": c}, has_input)
+    ctx.count(len(cases), sum(1 for c in cases if not c["leaf"]))
+
+
 def lazy_part(ctx, prop, rng, seen, replay):
     """traversals with on-demand parsing of the shipped suite: property monitors only (no model)"""
     import concurrent.futures
@@ -398,6 +447,8 @@ def run_property(ctx, prop, replay=None):
             ctx.fail(sig, f"{prop}: {text}", d, True)
     ctx.obligation(f"monitor:{prop}", "monitor", True, f"{hits} monitor hits in {len(cases)} traversals (see violations / known findings)")
     lazy_part(ctx, prop, rng, seen, replay)
+    if prop == "C03" and (not replay or "scan_case" in replay.get("data", {})):
+        scan_part(ctx, rng)
     sections = sum(len(c["run"].sections) for c in cases)
     contended = sum(1 for c in cases if any(e[0] == "bounce" for evs in c["run"].events for e in evs))
     ctx.count(len(cases), contended)
